@@ -6,4 +6,14 @@ namespace CaddyModel.Gen
     fmt.Print* call that mentions one of them or calls Format in place -/
 def cmdFmtDataFlow : List String := ["v0,err = io.ReadAll(os.Stdin)", "fmt.Print(string(caddyfile.Format(v0)))", "v0,err = os.ReadFile(configFile)", "v1 = caddyfile.Format(v0)", "os.WriteFile(configFile,v1,0o600)", "fmt.Print(string(v1))"]
 
+/-- caddyconfig/caddyfile/adapter.go FormattingDifference, the same way (sink: bytes.Equal) -/
+def formattingDifferenceDataFlow : List String := ["v1 = bytes.Replace(body,?(\"\\r\\n\"),?(\"\\n\"),-1)", "v0 = Format(v1)", "bytes.Equal(v0,v1)"]
+
+/-- caddyconfig/caddyfile/parse.go allTokens: what it returns -/
+def allTokensReturns : List String := ["Tokenize(replaceEnvVars(input),filename)"]
+
+/-- adapter.go (Adapter).Adapt, in source order: every call of Parse / FormattingDifference and every assignment to
+    its parameter `body` -/
+def adaptBodyUses : List String := ["Parse(filename,body)", "FormattingDifference(filename,body)"]
+
 end CaddyModel.Gen
